@@ -13,18 +13,30 @@ theorem ext2_refl (h : H) (S : Array Cell) : Ext2 D h S h S :=
    fun _ x => x, fun _ _ _ _ x => x, fun _ _ v x y => ⟨v, x, y⟩⟩
 
 theorem Ext3.refl (h : H) (S : Array Cell) : Ext3 D h S h S :=
-  ⟨ext2_refl h S, fun _ _ _ x => x, fun _ _ x => x⟩
+  ⟨ext2_refl h S, fun _ _ _ x => x, fun _ _ x => x, fun _ _ _ x => x, fun _ _ _ _ x => x⟩
 
 theorem Ext3.trans {h1 h2 h3 : H} {S1 S2 S3 : Array Cell} (a : Ext3 D h1 S1 h2 S2) (b : Ext3 D h2 S2 h3 S3) :
     Ext3 D h1 S1 h3 S3 :=
-  ⟨a.toExt2.trans b.toExt2, fun v x y p => b.pairs v x y (a.pairs v x y p), fun e k p => b.init e k (a.init e k p)⟩
+  ⟨a.toExt2.trans b.toExt2, fun v x y p => b.pairs v x y (a.pairs v x y p), fun e k p => b.init e k (a.init e k p),
+   fun e k ok u => b.undefOK e k (a.envOK e ok) (a.undefOK e k ok u),
+   fun e k v g ok => by
+     obtain ⟨v', g'⟩ := a.toExt2.envSome g
+     exact a.okBack e k v g (b.okBack e k v' g' ok)⟩
 
 /-- only the store changed -/
 theorem Ext3.storeOnly (L : Laws3 D) (h : H) {S S' : Array Cell} (x : StoreExt S S') : Ext3 D h S h S' :=
   ⟨⟨x, fun _ _ y => L.vr_store _ _ _ _ _ x y,
    fun _ _ y => DatumAt.transport (fun _ _ z => L.vr_store _ _ _ _ _ x z) (fun _ _ _ z => z) (fun _ _ z => z) y,
    fun _ y => ⟨y, fun _ => rfl, rfl, rfl⟩, fun _ _ _ y => y, fun _ y => y, fun _ _ _ _ y => y,
-   fun _ _ v y z => ⟨v, y, z⟩⟩, fun _ _ _ y => y, fun _ _ y => y⟩
+   fun _ _ v y z => ⟨v, y, z⟩⟩, fun _ _ _ y => y, fun _ _ y => y, fun _ _ _ y => y, fun _ _ _ _ y => y⟩
+
+/-- the parametrised relations follow the heap when the demand does -/
+theorem EnvRep3g.ext {W W' : World} {h h' : H} {S S' : Array Cell} {P P' : Nat → Nat → Prop} {c : Ctx} {ep : Nat}
+    {ρ : Env} {us : Text → Prop} (r : EnvRep3g ops W h P c ep ρ us) (x : Ext3 D h S h' S') (hw : W.le W')
+    (hP : ∀ e n, P e n → P' e n) : EnvRep3g ops W' h' P' c ep ρ us := by
+  intro y j hj
+  obtain ⟨e, n, l, hd, hl, hW, hin⟩ := r y j hj
+  exact ⟨e, n, l, hd.ext x.toExt2, hl, hw _ _ _ hW, fun hu => hP _ _ (hin hu)⟩
 
 theorem EnvRep3.ext {W W' : World} {h h' : H} {S S' : Array Cell} {c : Ctx} {ep : Nat} {ρ : Env} {us : Text → Prop}
     (r : EnvRep3 ops W h c ep ρ us) (x : Ext3 D h S h' S') (hw : W.le W') : EnvRep3 ops W' h' c ep ρ us := by
@@ -45,20 +57,26 @@ theorem EnvRep3.toEnvRep {W : World} {h : H} {c : Ctx} {ep : Nat} {ρ : Env} {us
   obtain ⟨e, n, l, hd, hl, hW, _⟩ := r y j hj
   exact ⟨e, n, l, hd, hl, hW⟩
 
-theorem ClosOK3.mono {W W' : World} {h h' : H} {S S' : Array Cell} {lam cenv : Nat} {ps : List Text}
-    {rest : Option Text} {body : List Datum} {ρc : Env} (c : ClosOK3 D W h lam cenv ps rest body ρc)
-    (x : Ext3 D h S h' S') (hw : W.le W') : ClosOK3 D W' h' lam cenv ps rest body ρc := by
+theorem ClosOK3g.mono {W W' : World} {h h' : H} {S S' : Array Cell} {P P' : Nat → Nat → Prop} {lam cenv : Nat}
+    {ps : List Text} {rest : Option Text} {body : List Datum} {ρc : Env}
+    (c : ClosOK3g D W h P lam cenv ps rest body ρc) (x : Ext3 D h S h' S') (hw : W.le W')
+    (hP : ∀ e n, P e n → P' e n) : ClosOK3g D W' h' P' lam cenv ps rest body ρc := by
   obtain ⟨f, cst, cst1, co, p, bcode, ints, caps, a1, a2, a3, a4, a5, a6, a7, a8, a9, a10, a11, a12, a13,
-    a14, a15, a16, a17, a18⟩ := c
+    a14, a15, a16, a17, a18, a19⟩ := c
   obtain ⟨b1, _, _, b4⟩ := x.code lam a11
   refine ⟨f, cst, cst1, co, p, bcode, ints, caps, a1, a2, a3, a4, a5, a6, a7, a8, a9, a10, b1, a12,
-    b4.trans a13, a14, a15, ?_, ?_, x.envOK _ a18⟩
+    b4.trans a13, a14, a15, ?_, ?_, x.envOK _ a18, fun j y hy => x.undefOK _ _ a18 (a19 j y hy)⟩
   · intro j hj
     obtain ⟨g, hg⟩ := a16 j hj
     exact x.toExt2.envSome hg
   · intro j y hj hy
     obtain ⟨e, n, l, h1, h2, h3, h4⟩ := a17 j y hj hy
-    exact ⟨e, n, l, x.envPtr _ _ _ _ h1, h2, hw _ _ _ h3, x.init _ _ h4⟩
+    exact ⟨e, n, l, x.envPtr _ _ _ _ h1, h2, hw _ _ _ h3, hP _ _ h4⟩
+
+theorem ClosOK3.mono {W W' : World} {h h' : H} {S S' : Array Cell} {lam cenv : Nat} {ps : List Text}
+    {rest : Option Text} {body : List Datum} {ρc : Env} (c : ClosOK3 D W h lam cenv ps rest body ρc)
+    (x : Ext3 D h S h' S') (hw : W.le W') : ClosOK3 D W' h' lam cenv ps rest body ρc :=
+  ClosOK3g.mono c x hw (fun e n => x.init e n)
 
 theorem VR3.mono {W W' : World} {h h' : H} {S S' : Array Cell} {v : VCell} {w : Val}
     (r : VR3 D W h S v w) (x : Ext3 D h S h' S') (hw : W.le W') : VR3 D W' h' S' v w := by
@@ -127,7 +145,10 @@ theorem Inv3.frame {W : World} {h h' : H} {σ σ' : SSt} (i : Inv3 D W h σ)
     (hloc : ∀ e n l, W e n l → ops.envGet h' e n = ops.envGet h e n ∧ σ'.store[l]? = σ.store[l]?) :
     Inv3 D W h' σ' := by
   refine ⟨fun y w hn hl => ?_, fun y hn hl => ?_, hx, fun y hy => hg ▸ i.gset y hy, i.loaded.ext x.toExt2, i.wfun,
-    i.winj, fun e n l hW => ?_⟩
+    i.winj, fun e n l hW => ?_, fun e n l hW ok => ?_⟩
+  rotate_right
+  · obtain ⟨v, _, h1, _⟩ := i.vars e n l hW
+    exact i.wact e n l hW (x.okBack e n v h1 ok)
   · rw [hgg]; exact (i.bound y w hn (hg ▸ hl)).mono x (World.le_refl _)
   · rw [hgg]; exact i.unbound y hn (hg ▸ hl)
   · obtain ⟨v, w, h1, h2, h3, h4⟩ := i.vars e n l hW
